@@ -167,6 +167,11 @@ def run(ctx):
     rw = ctx.rule("C04.6", "directory member hashes address each member at its own path (os.walk join idiom)", floor=1)
     for construct, ok, msg, rel, line in walk_join_obligations(repo):
         rw.check(ok, construct, msg, rel, line)
+    re_ = ctx.rule("C04.7", "the files hashed for a directory are (at least) the files that iterating the directory yields", floor=4)
+    from ..filerules import dir_hash_enumeration_obligations
+
+    for construct, ok, msg, rel, line in dir_hash_enumeration_obligations(repo):
+        re_.check(ok, construct, msg, rel, line)
 
 
 def _arm(facts) -> str:
